@@ -112,6 +112,11 @@ def run():
     # the solo and the interleaved run of a pair must be adjacent and in this order in the trace file (run_scenarios keeps scenario order)
     verdicts, _ = ctx.validate(trace, "MonC07", reset_with_state=True)
     ctx.judge(scs, trace, verdicts)
+    # (c) a closed stream's wire-level identity (its stream alias) is handed to a new stream: the new stream is served as if the old one had never existed
+    ar = U.alias_reuse_scenarios("C07")
+    atrace = ctx.run_scenarios(ar, "c07ar", par=3)
+    averdicts, _ = ctx.validate(atrace, "MonC01")
+    ctx.judge(ar, atrace, averdicts)
     ctx.finish(rule="(a) every maximal Store/Remove/List/Clear sequence of the generator configurations of SentStorage.tla replayed lock-step on both real stores; "
                     "(b) paired runs: P in {reliable upstream, unreliable upstream, downstream} alone vs interleaved with Q in {unreliable/reliable/partial upstream, "
                     "upstream with the same data ids and reordered acks, upstream closed before the cut, upstream/downstream whose resume is refused, downstream} "
